@@ -4,7 +4,7 @@ Obligations: theorems of lean/OmplModel/Props/C01.lean (L0 reporting layer, L1 o
 kernel-checked, audited).
 
 Correspondence / conformance, all against the REAL planners of the current tree (harness/planners.cpp):
- (a) RRT and RRTConnect lock-step: the harness records every state the sampler / the goal handed to the planner
+ (a) RRT, RRTConnect and LazyPRM lock-step (LazyPRM additionally replays the real A* answers, see notes/C01.md): the harness records every state the sampler / the goal handed to the planner
      (recording sampler allocator + recording goal wrapper, NearestNeighborsLinear installed); the Lean models
      (`drv_rrt`) replay the draws and must reproduce the tree(s) (insertion order, parents, roots, state bits), the
      path, the status, the problem-definition flags and the input-state counters.
@@ -17,7 +17,7 @@ Correspondence / conformance, all against the REAL planners of the current tree 
      that stretch (touching no queried state), the same planner is re-run with the same seed and budget and the (same,
      now invalid) path is reported as the failing input.
 
-Planners other than RRT and RRTConnect are covered ONLY on the runs explored here.
+Planners other than RRT, RRTConnect and LazyPRM are covered ONLY on the runs explored here.
 """
 import concurrent.futures
 import math
@@ -30,7 +30,8 @@ from lib import core
 EPS = 2.220446049250313e-16
 PI = math.pi
 DRIVER = "drv_rrt"
-LEAN_TARGETS = ["OmplModel.Props.C01", DRIVER]
+DRIVER_LAZYPRM = "drv_lazyprm"
+LEAN_TARGETS = ["OmplModel.Props.C01", DRIVER, DRIVER_LAZYPRM]
 LEVEL = "proof"
 
 GEOMETRIC = ["RRT", "RRTConnect", "RRTstar", "InformedRRTstar", "SORRTstar", "RRTsharp", "RRTXstatic", "LazyRRT",
@@ -132,17 +133,18 @@ class Problem:
     """one planning problem + planner settings; everything needed to rebuild the harness input."""
 
     def __init__(self, kind, lo, hi, pdim, boxes, res, starts, goal, thr, planner, seed, budget, pollcap,
-                 rng=None, interm=None, bias=None, mode="run", trace=0, tag="random", rho=1.0):
+                 rng=None, interm=None, bias=None, mode="run", trace=0, tag="random", rho=1.0, costthr=None):
         self.kind, self.lo, self.hi, self.pdim, self.boxes = kind, list(lo), list(hi), pdim, [tuple(b) for b in boxes]
         self.res, self.starts, self.goal, self.thr = res, [list(s) for s in starts], list(goal), thr
         self.planner, self.seed, self.budget, self.pollcap = planner, seed, budget, pollcap
         self.rng, self.interm, self.bias, self.mode, self.trace, self.tag, self.rho = rng, interm, bias, mode, trace, tag, rho
+        self.costthr = costthr
 
     def clone(self, **kw):
         d = dict(kind=self.kind, lo=self.lo, hi=self.hi, pdim=self.pdim, boxes=self.boxes, res=self.res, starts=self.starts,
                  goal=self.goal, thr=self.thr, planner=self.planner, seed=self.seed, budget=self.budget,
                  pollcap=self.pollcap, rng=self.rng, interm=self.interm, bias=self.bias, mode=self.mode, trace=self.trace,
-                 tag=self.tag, rho=self.rho)
+                 tag=self.tag, rho=self.rho, costthr=self.costthr)
         d.update(kw)
         return Problem(**d)
 
@@ -241,6 +243,8 @@ class Problem:
             L.append("interm %d" % self.interm)
         if self.bias is not None:
             L.append("goalbias " + f2b(self.bias))
+        if self.costthr is not None:
+            L.append("costthr " + self.costthr)
         L += ["seed %d" % self.seed, "budget %d %d" % (self.budget, self.pollcap), "mode " + self.mode,
               "trace %d" % self.trace, "watchdog %d" % WATCHDOG[0], "go"]
         return L
@@ -528,7 +532,7 @@ def parse_run(lines):
             R.setdefault("base_queries_log", []).append((t[1] == "1", [b2f(x) for x in t[2:]]))
         elif k == "pdata":
             R["pdata"] = kv(t[1:])
-        elif k == "draw":
+        elif k in ("draw", "astar"):
             R["draws"].append(ln)
         elif k == "L":
             R["L"].append(ln[2:])
@@ -802,7 +806,7 @@ def path_is_real(p, R):
 
 # ---------------------------------------------------------------------------------- lock-step (a)
 def driver_script(p, R):
-    d = ["rrt %d" % len(p.lo), "bounds " + " ".join(map(f2b, p.lo)) + " " + " ".join(map(f2b, p.hi)), p.boxes_line(),
+    d = [("lazyprm %d" if p.planner == "LazyPRM" else "rrt %d") % len(p.lo), "bounds " + " ".join(map(f2b, p.lo)) + " " + " ".join(map(f2b, p.hi)), p.boxes_line(),
          "res " + f2b(p.res)]
     if p.rng is not None:
         d.append("range " + f2b(p.rng))
@@ -811,7 +815,9 @@ def driver_script(p, R):
     for s in p.starts:
         d.append("start " + " ".join(map(f2b, s)))
     d += R["draws"]
-    if p.planner == "RRTConnect":
+    if p.planner == "LazyPRM":
+        d += ["ptc %d" % p.budget, "costthr " + (p.costthr or "inf"), "solvel", "roadmap", "path", "pdef"]
+    elif p.planner == "RRTConnect":
         d += ["ptc %d" % p.budget, "solvec", "trees", "treeg", "path", "pdef"]
     else:
         d += ["solve", "tree", "path", "pdef"]
@@ -824,7 +830,7 @@ def lockstep_one(ck, hbin, p):
     if not R.get("done") or R.get("rc") != 0 or R.get("exception"):
         return False, "harness failed: rc=%s %s %s" % (R.get("rc"), R.get("exception"), R.get("stderr", "")[-300:]), [], [], R
     ds = driver_script(p, R)
-    model, rc, err = ck.run_bin(ck.driver(DRIVER), ds)
+    model, rc, err = ck.run_bin(ck.driver(DRIVER_LAZYPRM if p.planner == "LazyPRM" else DRIVER), ds)
     nout = 5 if p.planner == "RRTConnect" else 4
     if rc != 0 or model is None or len(model) < nout or any(m == "bad-op" for m in model):
         return False, "driver failed rc=%s" % rc, R["L"], model or [], R
@@ -832,14 +838,26 @@ def lockstep_one(ck, hbin, p):
     L = {l.split()[0].split("=")[0]: l for l in R["L"]}
     d = kv(m[0].split())
     what = None
-    if p.planner == "RRTConnect":
+    if p.planner == "LazyPRM":
+        names = ["status", "roadmap", "path", "problem definition", "counters"]
+        misc = kv(L.get("misc", "").split())
+        audit = kv(L.get("audit", "").split())
+        impl = [L.get("status", ""), L.get("roadmap", ""), L.get("path", ""), L.get("pdef", ""),
+                "iterations=%s startm=%s goalm=%s ngoal=%s" % (misc.get("iterations"), misc.get("startm"), misc.get("goalm"), misc.get("ngoal"))]
+        mod = ["status=%s bool=%s added=%s" % (d["status"], d["bool"], d["added"]), m[1], m[2], m[3],
+               "iterations=%s startm=%s goalm=%s ngoal=%s" % (d["iterations"], d["startm"], d["goalm"], d["ngoal"])]
+        R["audit"] = audit
+        if d["oraclebad"] != "0":
+            what = "the model rejected the recorded A* answers / event order (oracleBad)"
+        elif audit and audit.get("sameid_notconnected") != "0":
+            what = "REAL roadmap: %s vertex pairs share a component id but are not connected" % audit.get("sameid_notconnected")
+    elif p.planner == "RRTConnect":
         names = ["status", "start tree", "goal tree", "path", "problem definition", "counters"]
         misc = kv(L.get("misc", "").split())
         impl = [L.get("status", ""), L.get("treeS", ""), L.get("treeG", ""), L.get("path", ""), L.get("pdef", ""),
                 "ngoal=%s starttree=%s" % (misc.get("ngoal"), misc.get("starttree"))]
         mod = ["status=%s bool=%s added=%s" % (d["status"], d["bool"], d["added"]), m[1], m[2], m[3], m[4],
                "ngoal=%s starttree=%s" % (d["ngoal"], d["starttree"])]
-        nu = len([x for x in R["draws"] if x.split()[1] == "u"])
         if d["fuelout"] != "0":
             what = "model ran out of connect fuel"
         elif d["short"] != "0":
@@ -1005,6 +1023,8 @@ def problem_from_script(lines):
             kw["interm"] = int(t[1])
         elif t[0] == "goalbias":
             kw["bias"] = b2f(t[1])
+        elif t[0] == "costthr":
+            kw["costthr"] = t[1]
         elif t[0] == "seed":
             kw["seed"] = int(t[1])
         elif t[0] == "budget":
@@ -1184,23 +1204,30 @@ def plan_thorough(ck, names):
 
 
 def lockstep_jobs(ck, n):
-    """half RRT, half RRTConnect (the two fully modelled planners)"""
+    """a third each: RRT, RRTConnect, LazyPRM (the fully modelled planners)"""
     jobs = []
     r = ck.rng.fork("lockstep")
     for i in range(n):
-        planner = "RRT" if i % 2 == 0 else "RRTConnect"
+        planner = ["RRT", "RRTConnect", "LazyPRM"][i % 3]
         env = gen_env(r, r.choice(["rv2", "rv2", "rv3"]))
         ext = extent(env)
         rng = r.choice([None, None, 0.0, 0.003 * ext, 0.05 * ext, 0.5 * ext, 3.0 * ext])
         adv = None
         if i % 7 in (3, 4):
-            adv = r.choice(["bad-starts", "zero-threshold", "goal-in-obstacle", "thin-corridor", "start-on-bounds", "start-is-goal"])
+            # (start-is-goal is left out for LazyPRM: two vertices at equal distance from every sample, and the code's
+            # std::partial_sort is not stable - the only source of ties)
+            adv = r.choice(["bad-starts", "zero-threshold", "goal-in-obstacle", "thin-corridor", "start-on-bounds"] +
+                           ([] if planner == "LazyPRM" else ["start-is-goal"]))
             env = gen_adversarial(r, adv)
         iters = r.choice([0, 1, 7, 60, 300, 1500]) if rng != 0.003 * ext else r.choice([60, 300, 600])
-        if adv == "goal-in-obstacle" and planner == "RRTConnect":
+        if adv == "goal-in-obstacle" and planner != "RRT":
             iters = min(iters, 60)      # nextGoal(ptc) sleeps 10 ms per waiting turn on an invalid goal
+        if planner == "LazyPRM":
+            iters = min(iters, 600)
         jobs.append(env.clone(planner=planner, mode="lockstep", seed=r.below(100000), budget=iters, pollcap=0, rng=rng,
-                              interm=r.below(2), bias=(r.choice([None, 0.05, 0.3, 0.0, 1.0]) if planner == "RRT" else None),
+                              interm=(r.below(2) if planner != "LazyPRM" else None),
+                              bias=(r.choice([None, 0.05, 0.3, 0.0, 1.0]) if planner == "RRT" else None),
+                              costthr=(r.choice(["inf", "inf", "zero"]) if planner == "LazyPRM" else None),
                               tag="lockstep"))
     return jobs
 
@@ -1213,14 +1240,14 @@ def run(ck):
     ck.trusted += ["harness/planners.cpp: recording validity checker / sampler / goal wrappers, derived class PeekRRT reading RRT's protected tree",
                    "the spec oracle's own geometry (Python doubles): bounds, box collision, R^n/SE(2)/SE(3) distances, segment/box intersection",
                    "Dubins / Reeds-Shepp runs: goal and edge distances are taken from the library (C14's subject)",
-                   "planners other than RRT and RRTConnect have no Lean model: they are covered only on the runs explored by this check",
+                   "planners other than RRT, RRTConnect and LazyPRM have no Lean model: they are covered only on the runs explored by this check",
                    "attribution of queried states to path edges (discipline lines) uses the library's distance function"]
     ck.assumptions += ["state validity is a pure function of the state (box environments)",
                        "interpolation is geodesic for the spaces used (C07), so curve length along an edge is t * distance",
                        "the strict form is demanded only of planners not listed in NOT_STRICT (reasons given there)"]
     WATCHDOG[0] = 40 if ck.tier == "quick" else 150
     ck.lean_build(LEAN_TARGETS)
-    ck.audit(roots=["Drv.RRT"])
+    ck.audit(roots=["Drv.RRT", "Drv.LazyPRM"])
     if ck.tier == "thorough" and ck.lean_ok:
         ck.leanchecker(["OmplModel.Props.C01"])
     hbin = ck.build_harness("planners", ["planners.cpp"], link_ompl=True)
@@ -1232,7 +1259,7 @@ def run(ck):
     jobs = plan_quick(ck, names) if ck.tier == "quick" else plan_thorough(ck, names)
     ck.log("%d planner runs on %d workers" % (len(jobs), workers))
     pfut = [ex.submit(run_problem, ck, hbin, p) for p in jobs]
-    ljobs = lockstep_jobs(ck, 60 if ck.tier == "quick" else 500) if ck.lean_ok else []
+    ljobs = lockstep_jobs(ck, 90 if ck.tier == "quick" else 750) if ck.lean_ok else []
     lfut = [ex.submit(lockstep_one, ck, hbin, p) for p in ljobs]
 
     # ---- corpus first
@@ -1263,6 +1290,8 @@ def run(ck):
             for ln in (impl or [])[1:3]:
                 if ln.startswith(("tree n=", "treeS n=", "treeG n=")):
                     ntree += int(ln.split()[1][2:])
+                elif ln.startswith("roadmap nv="):
+                    ntree += int(ln.split()[1][3:])
             ck.case(p.key(), ntree >= 10)
             ck.count("lockstep-runs")
             ck.count("lockstep-runs:" + p.planner)
@@ -1270,6 +1299,10 @@ def run(ck):
             ck.count("lockstep-draws", len(R.get("draws", [])))
             ck.count("lockstep:status:" + str(R.get("status")))
             ck.count("lockstep:interm=%s" % p.interm)
+            if p.planner == "LazyPRM":
+                ck.count("lockstep-lazyprm-astar-answers", len([x for x in R.get("draws", []) if x.startswith("astar")]))
+                if (R.get("audit") or {}).get("connected_diffid", "0") != "0":
+                    ck.count("lockstep-lazyprm:connected-but-different-component-id")
             if ok:
                 # the real run's own output also goes through the spec oracle
                 fails, obs = path_is_real(p, R)
@@ -1338,21 +1371,23 @@ MANIFEST = {
     "engine": "planners",
     "category": "proof",
     "design_ref": "DESIGN.md 2.1",
-    "text": "Lean 4 theorems (24): (L0) the reporting layer shared by all planners (status truth table, PlannerInputStates "
+    "text": "Lean 4 theorems (31): (L0) the reporting layer shared by all planners (status truth table, PlannerInputStates "
             "nextStart/nextGoal filter and counters, PathGeometric::check, addSolutionPath bookkeeping); (L1) planners as oracle "
             "machines (run_congr, unasked_flip, undisciplined_refutable: unqueried stretches cannot be vouched for; "
             "checked_points_valid / discipline_sound: queried-valid points are valid and dense valid queries bound every invalid "
             "stretch); (L2) an executable model of geometric::RRT::solve with rrt_tree_inv and rrt_solution_real proved for every "
             "script of draws, validity predicate, goal, threshold, range and interruption point, plus rrt_inbounds; (L2b) the same for "
             "geometric::RRTConnect::solve/growTree (two trees, connect loop, path assembly from both trees, intermediate states: "
-            "rrtconnect_tree_inv, rrtconnect_solution_real, rrtconnect_path_checks); both models are tied to the C++ by bit-exact "
+            "rrtconnect_tree_inv, rrtconnect_solution_real, rrtconnect_path_checks); (L2c) geometric::LazyPRM with A* as a checked "
+            "oracle (lazyprm_roadmap_inv, lazyprm_removed_stay_removed, lazyprm_construct_validates, lazyprm_solution_real; the "
+            "component-id soundness only partially: lazyprm_components_sound_partial); the three models are tied to the C++ by bit-exact "
             "lock-step replay of recorded sampler/goal draws (trees, path, status, flags). Trace conformance: all 41 shipped "
             "geometric planners and 4 multilevel planners are run on random and adversarial box environments and every reported "
             "solution is judged by an independent spec oracle (valid in-bounds start, bounds, goal/approximate/difference/status "
             "consistency, no invalid stretch longer than twice the resolution length, and for planners in the strict table every "
             "consecutive pair passes the motion check again; non-solution statuses add no path), including Dubins and Reeds-Shepp "
             "spaces for the planners that support them, and the constructive unobserved-gap attack on every solved run.",
-    "note": "Planners other than RRT and RRTConnect are covered only on the runs explored (sampled seeds, environments, budgets); the theorems "
+    "note": "Planners other than RRT, RRTConnect and LazyPRM are covered only on the runs explored (sampled seeds, environments, budgets); the theorems "
             "reduce their soundness to a per-run discipline which is observed, not proved. Trusted: Lean kernel, the three "
             "standard axioms, the hand-written RRT / RRTConnect models outside the lock-step runs, the harness's recording wrappers, the "
             "oracle's own geometry in Python, OMPL's Dubins/Reeds-Shepp distances where used.",
